@@ -42,7 +42,7 @@ NEG = {"==": "!=", "!=": "==", "<": ">=", ">=": "<", ">": "<=", "<=": ">", "is":
 FLIP = {"==": "==", "!=": "!=", "<": ">", ">": "<", "<=": ">=", ">=": "<="}
 
 MUTATORS = {"append", "extend", "update", "add", "clear", "pop", "remove", "insert", "discard", "popleft", "sort",
-            "reverse", "setdefault", "put_nowait"}
+            "reverse", "setdefault", "put_nowait", "merge"}
 VIEW_FUNCS = {"memoryview", "bytes", "bytearray"}
 
 
@@ -293,6 +293,22 @@ class TermAnalysis(Analysis):
     def leq(self, a, b):
         return a == b
 
+    engine = None
+
+    def raises(self, node, state):
+        """Inside a try body, any statement that calls / indexes / awaits may raise each class the try handles
+        (so that every handler is analysed).  Nothing is claimed about which exceptions are actually possible."""
+        eng = self.engine
+        if eng is None or not eng.try_stack or isinstance(node, (ast.Raise, ast.FunctionDef, ast.AsyncFunctionDef, ast.ClassDef)):
+            return []
+        if not any(isinstance(n, (ast.Call, ast.Subscript, ast.Await, ast.BinOp)) for n in ast.walk(node)):
+            return []
+        out = []
+        for names in eng.try_stack[-1:]:
+            for n in names:
+                out.append((n, state))
+        return out
+
     # -------------------------------------------------------------- statements
     def visit(self, node, state):
         if self.record:
@@ -360,8 +376,6 @@ class TermAnalysis(Analysis):
             k = self.key_of(target)
             if k:
                 st.env[k] = value
-                st.env.setdefault("<stores>", ())
-                st.env["<stores>"] = st.env["<stores>"] + ((k, value),)
             else:
                 self.ev(target.value, st)
         elif isinstance(target, ast.Subscript):
@@ -696,6 +710,23 @@ class TermAnalysis(Analysis):
 class TermEngine(Engine):
     """Engine with loop widening for TermAnalysis (loop-carried names become ('loopvar', ..))."""
 
+    def __init__(self, prog, fn, analysis):
+        super().__init__(prog, fn, analysis)
+        self.loops: Dict[ast.AST, dict] = {}    # loop node -> {entry, head, continues, ends, breaks, exit}
+        self.try_stack: List[List[str]] = []
+        analysis.engine = self
+
+    def try_(self, s, state):
+        # every handler must be entered: statements of the body may raise each handled class
+        names = []
+        for h in s.handlers:
+            names += self._htypes(h)
+        self.try_stack.append(names)
+        try:
+            return super().try_(s, state)
+        finally:
+            self.try_stack.pop()
+
     def loop(self, s, state) -> Completions:
         widened = self.a.widen_loop(s, state)
         # one pass suffices: every name assigned in the body is already ⊤-like at the head
@@ -706,6 +737,9 @@ class TermEngine(Engine):
         if entry is not None:
             entry = State(entry.env, entry.pc)
         body_out = self.block(s.body, entry) if entry is not None else Completions()
+        self.loops[s] = {"entry": state, "head": widened, "body_entry": entry, "continues": list(body_out.continues),
+                         "ends": list(body_out.normal), "breaks": list(body_out.breaks), "exit": exit_state,
+                         "returns": list(body_out.returns), "raises": list(body_out.raises)}
         out.returns += body_out.returns
         out.raises += body_out.raises
         exits = []
@@ -727,8 +761,9 @@ class TermEngine(Engine):
 
 
 class Summary:
-    def __init__(self, fn: FuncInfo, ta: TermAnalysis, comp: Completions):
+    def __init__(self, fn: FuncInfo, ta: TermAnalysis, comp: Completions, loops=None):
         self.fn, self.ta, self.comp = fn, ta, comp
+        self.loops = loops or {}
         self.returns: List[Tuple[tuple, Term, Optional[ast.AST], State]] = []
         for st, node in comp.returns:
             self.returns.append((st.pc, st.env.get("<return>", const(None)) if node is not None else const(None), node, st))
@@ -765,7 +800,7 @@ def summarize(prog: Program, fn: FuncInfo, args: Optional[Dict[str, Term]] = Non
     ta = TermAnalysis(prog, fn, args)
     eng = TermEngine(prog, fn, ta)
     comp = eng.run(ta.initial())
-    s = Summary(fn, ta, comp)
+    s = Summary(fn, ta, comp, eng.loops)
     _CACHE[key] = s
     return s
 
